@@ -166,6 +166,27 @@ class _MetMixin(MetricProcessor):
         _rec(self.name, 'metric', ('summary', name, dict(labels), namespace, help_string, unit, value))
 
 
+class _MetMixinAddsLabel(MetricProcessor):
+    """An exporter that puts a label of its own into the label set it was handed (it treats it as its own copy)."""
+
+    def _take(self, kind, name, labels, namespace, help_string, unit, value):
+        _rec(self.name, 'metric', (kind, name, dict(labels), namespace, help_string, unit, value))
+        labels['exporter'] = self.name
+        KEPT_LABELS.append((labels, dict(labels)))
+
+    def counter(self, name, labels, namespace, help_string, unit, value):
+        self._take('counter', name, labels, namespace, help_string, unit, value)
+
+    def gauge(self, name, labels, namespace, help_string, unit, value):
+        self._take('gauge', name, labels, namespace, help_string, unit, value)
+
+    def histogram(self, name, labels, namespace, help_string, unit, value):
+        self._take('histogram', name, labels, namespace, help_string, unit, value)
+
+    def summary(self, name, labels, namespace, help_string, unit, value):
+        self._take('summary', name, labels, namespace, help_string, unit, value)
+
+
 class _SpanMixin(SpanProcessor):
     def create_span(self, name, context_id, tracepoint_id):
         idx = _rec(self.name, 'span_open', {'name': name, 'tp': tracepoint_id, 'ctx': context_id})
@@ -203,7 +224,7 @@ class _SpanMixinSampling(_SpanMixin):
         return super().create_span(name, context_id, tracepoint_id)
 
 
-_KINDS = {'res': _ResMixin, 'dec': _DecMixin, 'log': _LogMixin, 'logp': _LogMixinOwnNames, 'met': _MetMixin, 'span': _SpanMixin, 'span_sampling': _SpanMixinSampling}
+_KINDS = {'met_adds_label': _MetMixinAddsLabel, 'res': _ResMixin, 'dec': _DecMixin, 'log': _LogMixin, 'logp': _LogMixinOwnNames, 'met': _MetMixin, 'span': _SpanMixin, 'span_sampling': _SpanMixinSampling}
 
 
 def make(name, kinds, order=0, attrs=None, fail_ctor=False, falsy=None, display_name=None, deregister=False):
